@@ -231,3 +231,12 @@ EXTRA4 = {
 for _k, _v in EXTRA4.items():
     _t = CLAIMED[_k]
     CLAIMED[_k] = (_t[0], _t[1] + " " + _v, _t[2], _t[3])
+EXTRA5 = {
+ "C01": "Round 9: a list reader of the spent / pending table answers without its statement only for an empty request list (a fast path or batched variant is another answer than the one the binding rules examined).",
+ "C16": "Round 9: the issued total counts nothing that was not handed out - in the mint operation the signature save is the last fallible step (shared with C03.R7).",
+ "C18": "Round 9: every keyset record handed to storage carries the keyset's input fee (D24: Restore stored fee 0).",
+ "C19": "Round 9: a stored keyset record, and with it the keyset's counter, is never deleted (no Delete / DeleteBucket under the keysets bucket except where a mint's records move to a new URL).",
+}
+for _k, _v in EXTRA5.items():
+    _t = CLAIMED[_k]
+    CLAIMED[_k] = (_t[0], _t[1] + " " + _v, _t[2], _t[3])
